@@ -2,6 +2,7 @@ package harness
 
 import (
 	"context"
+	"errors"
 	"fmt"
 	"html/template"
 	"sort"
@@ -79,18 +80,20 @@ type Invocation struct {
 // A Runtime with Record == false touches no memory when probes run, so its
 // helpers can sit in a context shared by concurrent tasks.
 type Runtime struct {
-	Prog    *Program
-	Record  bool
-	Log     []Invocation
-	FailAt  int // 1-based invocation number that fails, 0 = none
-	Kind    faultKind
-	Fault   error
-	Fired   bool
-	FiredK  probeKind
-	FiredI  Invocation
-	Variant int                    // data builder variant (C13/C14): equal variants build deep-equal data
-	Reuse   map[string]interface{} // non-nil: the caller re-uses its nested data objects (maps, slices) from render to render; first build fills it
-	Ctx     *ctxProbe              // C10 inside renders: contexts kept by helpers (nil: helpers ck/pbd are inert)
+	Prog     *Program
+	Record   bool
+	Log      []Invocation
+	FailAt   int // 1-based invocation number that fails, 0 = none
+	Kind     faultKind
+	Fault    error
+	ScopeObs []string // what sibobs() saw, call by call
+	Own      []error  // errors of their own that helpers returned around a nested failure (pr2)
+	Fired    bool
+	FiredK   probeKind
+	FiredI   Invocation
+	Variant  int                    // data builder variant (C13/C14): equal variants build deep-equal data
+	Reuse    map[string]interface{} // non-nil: the caller re-uses its nested data objects (maps, slices) from render to render; first build fills it
+	Ctx      *ctxProbe              // C10 inside renders: contexts kept by helpers (nil: helpers ck/pbd are inert)
 }
 
 type wrongKind struct{ why string }
@@ -148,6 +151,33 @@ func (o *VObj) PV(id int, v interface{}) (interface{}, error) {
 		return v, o.rt.Fault // non-nil first result together with the error
 	}
 	return v, nil
+}
+
+// ownErr: what a helper returns around the failure of a render it started itself.
+type ownErr struct {
+	id  int
+	err error
+}
+
+func (e *ownErr) Error() string {
+	if e.err == nil {
+		return fmt.Sprintf("helper-rendered snippet %d failed", e.id)
+	}
+	return fmt.Sprintf("helper-rendered snippet %d failed: %v", e.id, e.err)
+}
+func (e *ownErr) Unwrap() error { return e.err }
+
+// wrapsAll: the injected fault and every error a helper returned around it are in err's chain.
+func wrapsAll(err error, rt *Runtime) bool {
+	if !errors.Is(err, rt.Fault) {
+		return false
+	}
+	for _, w := range rt.Own {
+		if !errors.Is(err, w) {
+			return false
+		}
+	}
+	return true
 }
 
 // closingIter is a plush Iterator (Next) that also has the io.Closer method.
@@ -282,6 +312,7 @@ func (o *Obj) PM(id int, v interface{}) (interface{}, error) {
 }
 
 var fixedTime = time.Date(2020, 2, 3, 4, 5, 6, 0, time.UTC)
+var fixedTimeCopy = fixedTime
 
 // contextData builds a fresh, deep-equal data map for one render.
 func (rt *Runtime) contextData() map[string]interface{} {
@@ -310,16 +341,26 @@ func (rt *Runtime) plainData() map[string]interface{} {
 		"m1":  map[string]interface{}{"n": 5, "s": "str", "b": true},
 		"obj": &Obj{Name: "bot", N: 9, On: true, Tags: []string{"t1", "t<2"}, Nums: []int{1, 2, 3}, Inner: &Inner{Label: "in", Depth: 2, Kids: kids(v)}, Kids: kids(v), KM: map[string]*Inner{"a": kids(v)[0]}, rt: rt},
 		"tm":  fixedTime,
+		// the same instant in two other zones, and through a pointer
+		"tm2": fixedTime.In(time.FixedZone("JST", 9*3600)),
+		"tm3": fixedTime.In(time.FixedZone("", -5*3600)),
+		"tmp": &fixedTimeCopy,
+		// an options map the caller holds in a variable (and may pass to every render)
+		"topts": map[string]interface{}{"size": 6 + v, "trail": "~"},
+		"topt2": map[string]interface{}{"size": 4},
 		"objs": []*Obj{
 			{Name: "o0", N: 10, Tags: []string{"a0", "b0"}, Nums: []int{7, 8, 9}, Inner: &Inner{Label: "i0", Depth: 0}, rt: rt},
 			{Name: "o1", N: 11, Tags: []string{"a1", "b1"}, Nums: []int{7, 8, 9}, Inner: &Inner{Label: "i1", Depth: 1}, rt: rt},
 		},
-		"om":   map[string]*Obj{"x": {Name: "ox", N: 12, Kids: kids(v), rt: rt}},
-		"vobj": VObj{Name: "val", rt: rt},
-		"dv":   Dual{Label: "val" + fmt.Sprint(v), Bal: 12 + v},
-		"dp":   &Dual{Label: "ptr" + fmt.Sprint(v), Bal: 40 + v},
-		"stg":  stg{"s" + fmt.Sprint(v)},
-		"htm":  htm{"h&" + fmt.Sprint(v)},
+		"om": map[string]*Obj{"x": {Name: "ox", N: 12, Kids: kids(v), rt: rt}},
+		// nil elements: a method with a pointer receiver that does not touch it can be called on them
+		"nobjs": []*Obj{nil, {Name: "n1", N: 13, rt: rt}},
+		"nm":    map[string]*Obj{"x": nil},
+		"vobj":  VObj{Name: "val", rt: rt},
+		"dv":    Dual{Label: "val" + fmt.Sprint(v), Bal: 12 + v},
+		"dp":    &Dual{Label: "ptr" + fmt.Sprint(v), Bal: 40 + v},
+		"stg":   stg{"s" + fmt.Sprint(v)},
+		"htm":   htm{"h&" + fmt.Sprint(v)},
 	}
 	if rt.Prog != nil {
 		for name, m := range rt.Prog.CtxMaps {
@@ -475,7 +516,39 @@ func (rt *Runtime) helperData() map[string]interface{} {
 			return help.Render("{<%= n2 %>:" + strings.ReplaceAll(strings.ReplaceAll(s, "<", "("), "%", "pct") + "}")
 		},
 		"pr2": func(inner int, help plush.HelperContext) (string, error) {
-			return help.Render(fmt.Sprintf("{<%%= pv(%d, n1) %%>}", inner))
+			out, err := help.Render(fmt.Sprintf("{<%%= pv(%d, n1) %%>}", inner))
+			if err != nil && inner%2 == 1 {
+				// the helper returns an error OF ITS OWN around the failure of the nested render: that value is the
+				// "original error" of this helper call and must be found in what Render returns
+				w := &ownErr{id: inner, err: err}
+				rt.Own = append(rt.Own, w)
+				if inner%4 == 3 {
+					w.err = nil
+					return "", errors.Join(w, err)
+				}
+				return "", w
+			}
+			return out, err
+		},
+		// sibobs reports what the scope it is called in observes under a key; pbn runs its block in a private child
+		// scope that carries a binding of its own (scope snippets, harness/c10exec.go)
+		"sibobs": func(key string, help plush.HelperContext) string {
+			if rt.Ctx != nil {
+				v := help.Value(key)
+				s := describeReal(v)
+				if h := help.Has(key); h != (v != nil) {
+					s += fmt.Sprintf(" BUT Has=%v", h)
+				}
+				rt.ScopeObs = append(rt.ScopeObs, s)
+			}
+			return ""
+		},
+		"pbn": func(help plush.HelperContext) (template.HTML, error) {
+			priv := help.New()
+			priv.Set("sibk", 1)
+			help.Context = priv // the idiom PartialHelper itself uses
+			s, err := help.Block()
+			return template.HTML(s), err
 		},
 		// ck keeps the context it is handed; pbd runs its block with a root context of its own (harness/c10exec.go)
 		"ck": func(help plush.HelperContext) string {
@@ -509,6 +582,11 @@ func (rt *Runtime) helperData() map[string]interface{} {
 			}
 			return s, nil
 		},
+	}
+	// needblock: a block helper that runs its block without asking whether it was given one
+	d["needblock"] = func(help plush.HelperContext) (template.HTML, error) {
+		s, err := help.Block()
+		return template.HTML("[" + s + "]"), err
 	}
 	// citer: a fresh Iterator with a Close method per call
 	d["citer"] = func() *closingIter { return &closingIter{n: 3} }
@@ -564,6 +642,18 @@ func (rt *Runtime) render() (out string, err error) {
 				return
 			}
 			out, err = t.Exec(c)
+			return
+		case 5: // a Template value the caller builds itself (exported struct, exported field): parsed on first use
+			t := &plush.Template{Input: rt.Prog.Main}
+			out, err = t.Exec(plush.NewContextWith(rt.contextData()))
+			return
+		case 6: // the value NewTemplate returns, cloned: after a failed parse the clone parses for itself
+			t, perr := plush.NewTemplate(rt.Prog.Main)
+			if t == nil {
+				out, err = "", perr
+				return
+			}
+			out, err = t.Clone().Exec(plush.NewContextWith(rt.contextData()))
 			return
 		case 1: // the entry point buffalo uses: data and helpers as two maps
 			out, err = plush.BuffaloRenderer(rt.Prog.Main, rt.plainData(), rt.helperData())
